@@ -45,6 +45,9 @@ func c06Case(r *evid.Run, tier string, idx int, g *rng.R) {
 			} else {
 				vals = append(vals, "0.1")
 			}
+		case 5:
+			// numerals beyond the range of a double (±Infinity), which make later NaN/opposite-infinity terms matter
+			vals = append(vals, rng.Pick(g, []string{"1" + strings.Repeat("0", 400), "-1" + strings.Repeat("0", 400), "9" + strings.Repeat("9", 320) + ".5", "n/a"}))
 		case 4:
 			vals = append(vals, rng.Pick(g, []string{"9007199254740993", "1000000000000000000000", "0.0000001", "-0", "2.50", "3.14", "0.30"}))
 		default:
